@@ -76,8 +76,19 @@ func localOnly(info *types.Info, e ast.Expr) ([]types.Object, bool) {
 	ast.Inspect(e, func(x ast.Node) bool {
 		switch s := x.(type) {
 		case *ast.CallExpr:
-			if !(isBuiltinCall(info, s, "len") || isBuiltinCall(info, s, "cap")) {
+			if !(isBuiltinCall(info, s, "len") || isBuiltinCall(info, s, "cap")) || len(s.Args) != 1 {
 				ok = false
+			} else if t := info.TypeOf(s.Args[0]); t != nil {
+				// the length of a map or a channel changes without an assignment to the variable
+				switch u := t.Underlying().(type) {
+				case *types.Slice, *types.Array:
+				case *types.Basic:
+					if u.Info()&types.IsString == 0 {
+						ok = false
+					}
+				default:
+					ok = false
+				}
 			}
 		case *ast.SelectorExpr, *ast.StarExpr, *ast.IndexExpr, *ast.FuncLit, *ast.SliceExpr, *ast.TypeAssertExpr, *ast.CompositeLit:
 			ok = false
@@ -636,20 +647,28 @@ func checkLoopCoversFirst(c *Ctx, r *Rec, rule string, fds []*ast.FuncDecl) {
 			if bare == nil || shifted {
 				continue
 			}
-			// member 0 reached elsewhere in the function?
+			// member 0 reached elsewhere in the function?  Any use of the accessor, any index or
+			// slice of the operand outside the loop may be what handles the first member.
 			zero := false
 			ast.Inspect(fd.Body, func(x ast.Node) bool {
-				isZero := func(e ast.Expr) bool {
-					tv, ok := info.Types[e]
-					return ok && tv.Value != nil && tv.Value.ExactString() == "0"
+				if x == ast.Node(fs) {
+					return false
 				}
 				switch s := x.(type) {
 				case *ast.IndexExpr:
-					if indexed && isZero(s.Index) {
+					if indexed && exprStr(s.X) == exprStr(call.Args[0]) {
+						zero = true
+					}
+				case *ast.SliceExpr:
+					if indexed && exprStr(s.X) == exprStr(call.Args[0]) {
+						zero = true
+					}
+				case *ast.RangeStmt:
+					if indexed && exprStr(s.X) == exprStr(call.Args[0]) {
 						zero = true
 					}
 				case *ast.CallExpr:
-					if _, mname, _, ok := methodCall(s); ok && acc != "" && mname == acc && len(s.Args) == 1 && isZero(s.Args[0]) {
+					if _, mname, _, ok := methodCall(s); ok && acc != "" && mname == acc {
 						zero = true
 					}
 				}
@@ -1072,9 +1091,9 @@ func checkDefaultOnlyForZero(c *Ctx, r *Rec, rule string, fds []*ast.FuncDecl) {
 
 // ---------------------------------------------------------------- a test whose outcome changes nothing
 
-// checkTestsDecide: `if c { continue }` as the last statement of a round of a loop, and an `if`
-// with an empty body and no else: whatever the test says, the same thing happens next.  (The
-// slip of `continue` for `break`, or of a branch that lost its body.)
+// checkTestsDecide: `if c { continue }` as the last statement of a round of a loop: whatever the
+// test says, the next round follows.  (The slip of `continue` for `break`.)  An `if` with an
+// empty body is not reported: it is what is left when a debugging aid is taken out.
 func checkTestsDecide(c *Ctx, r *Rec, rule string, fds []*ast.FuncDecl) {
 	tests, bad := 0, 0
 	for _, fd := range fds {
@@ -1090,15 +1109,8 @@ func checkTestsDecide(c *Ctx, r *Rec, rule string, fds []*ast.FuncDecl) {
 			}
 		}
 		inspectNoLit(fd.Body, func(x ast.Node) bool {
-			is, ok := x.(*ast.IfStmt)
-			if !ok {
-				return true
-			}
-			tests++
-			if is.Else == nil && len(is.Body.List) == 0 && is.Init == nil {
-				bad++
-				r.fail(rule, fmt.Sprintf("%s/test %s", c.fdName(fd), exprStr(is.Cond)), c.pos(is.Pos()),
-					fmt.Sprintf("the test %s at %s guards an empty branch: the same thing happens whatever it says", exprStr(is.Cond), c.pos(is.Pos())))
+			if _, ok := x.(*ast.IfStmt); ok {
+				tests++
 			}
 			return true
 		})
